@@ -166,16 +166,12 @@ theorem rspPacket_wt (p : RspPacket) (h : RspPacketOK p) :
     WT_mapVal _ _ h.ctx, trivial⟩
 
 theorem reqPacket_norm (p : ReqPacket) : norm packetEnv reqPacketName p.toVal = p.toVal := by
-  simp only [norm, ReqPacket.toVal, normVar, find_req, reqPacketFields, normMembers]
-  simp only [← mapStrStr, normVar_mapVal]
-  rw [show normVar packetEnv (cpReqReqSBuffer = 1) (.vec .i8) none (bufVal p.sBuffer)
-    = bufVal p.sBuffer from normVar_bufVal _ _ _]
+  simp only [norm, ReqPacket.toVal, normVar, find_req, reqPacketFields, normMembers,
+    normVar_bufVal, normVar_mapVal]
 
 theorem rspPacket_norm (p : RspPacket) : norm packetEnv rspPacketName p.toVal = p.toVal := by
-  simp only [norm, RspPacket.toVal, normVar, find_rsp, rspPacketFields, normMembers]
-  simp only [← mapStrStr, normVar_mapVal]
-  rw [show normVar packetEnv (cpRspReqSBuffer = 1) (.vec .i8) none (bufVal p.sBuffer)
-    = bufVal p.sBuffer from normVar_bufVal _ _ _]
+  simp only [norm, RspPacket.toVal, normVar, find_rsp, rspPacketFields, normMembers,
+    normVar_bufVal, normVar_mapVal]
 
 theorem reqPacket_ofVal (p : ReqPacket) : ReqPacket.ofVal p.toVal = some p := by
   simp [ReqPacket.ofVal, ReqPacket.toVal, valBuf_bufVal, valMap_mapVal]
@@ -205,40 +201,57 @@ theorem decode_rspPacket (p : RspPacket) (h : RspPacketOK p) :
 theorem be4_shape (n : Nat) : ∃ b0 b1 b2 b3 : Byte, be 4 n = [b0, b1, b2, b3] :=
   ⟨_, _, _, _, rfl⟩
 
-/-- `TarsRequest` on exactly one frame (header: total length, big endian) within the limit: the
-    whole frame is handed on -/
-theorem recvFirst_frame (maxLen : Int) (body : Bytes)
-    (h1 : ((4 + body.length : Nat) : Int) ≤ maxLen) (h2 : 4 + body.length < 2 ^ 32) :
-    recvFirst maxLen (be 4 (4 + body.length) ++ body) = .pkg (be 4 (4 + body.length) ++ body) := by
-  obtain ⟨b0, b1, b2, b3, hb⟩ := be4_shape (4 + body.length)
-  have hv : beVal [b0, b1, b2, b3] = 4 + body.length := by
-    rw [← hb, beVal_be]; exact Nat.mod_eq_of_lt (by simpa using h2)
-  rw [hb]
-  simp only [recvFirst, Frame.tarsRequest, headerBytes, minHeaderLen, protoPackageLess,
-    protoPackageError, protoPackageFull, transportPackageFull, transportPackageLess,
-    List.cons_append, List.nil_append, List.length_cons, hv]
+theorem tarsRequest_full (maxLen : Int) (b0 b1 b2 b3 : Byte) (body : Bytes) (n : Nat)
+    (hv : beVal [b0, b1, b2, b3] = n) (hn : n = 4 + body.length) (h1 : (n : Int) ≤ maxLen) :
+    Frame.tarsRequest maxLen (b0 :: b1 :: b2 :: b3 :: body) = .ret n protoPackageFull := by
+  unfold Frame.tarsRequest
+  simp only [List.length_cons, headerBytes, minHeaderLen, hv]
   have e1 : ¬ (body.length + 1 + 1 + 1 + 1 < 4) := by omega
-  have e2 : ¬ (4 + body.length < 4 ∨ ((4 + body.length : Nat) : Int) > maxLen) := by omega
-  have e3 : ¬ (body.length + 1 + 1 + 1 + 1 < 4 + body.length) := by omega
-  simp only [e1, e2, e3, if_false, if_true]
-  have : (b0 :: b1 :: b2 :: b3 :: body).length ≤ 4 + body.length := by simp; omega
-  simp [List.take_of_length_le this]
+  have e2 : ¬ (n < 4 ∨ (n : Int) > maxLen) := by omega
+  have e3 : ¬ (body.length + 1 + 1 + 1 + 1 < n) := by omega
+  simp only [e1, e2, e3, if_false]
+
+theorem beVal_be4 (b0 b1 b2 b3 : Byte) (n : Nat) (hb : be 4 n = [b0, b1, b2, b3])
+    (h2 : n < 2 ^ 32) : beVal [b0, b1, b2, b3] = n := by
+  rw [← hb, beVal_be]; exact Nat.mod_eq_of_lt (by simpa using h2)
+
+theorem recvFirst_cons (maxLen : Int) (b0 b1 b2 b3 : Byte) (body : Bytes) (n : Nat)
+    (hv : beVal [b0, b1, b2, b3] = n) (hn : n = 4 + body.length) (h1 : (n : Int) ≤ maxLen) :
+    recvFirst maxLen (b0 :: b1 :: b2 :: b3 :: body) = .pkg (b0 :: b1 :: b2 :: b3 :: body) := by
+  have hl : (b0 :: b1 :: b2 :: b3 :: body).length ≤ n := by
+    simp only [List.length_cons]; omega
+  have e : recvFirst maxLen (b0 :: b1 :: b2 :: b3 :: body)
+      = recvOf (b0 :: b1 :: b2 :: b3 :: body) (Frame.tarsRequest maxLen (b0 :: b1 :: b2 :: b3 :: body)) := rfl
+  rw [e, tarsRequest_full maxLen b0 b1 b2 b3 body n hv hn h1]
+  simp only [recvOf, protoPackageFull, transportPackageFull, if_true, List.take_of_length_le hl]
+
+/-- `TarsRequest` on exactly one frame (header: total length `n`, big endian) within the limit: the
+    whole frame is handed on -/
+theorem recvFirst_frame (maxLen : Int) (body : Bytes) (n : Nat) (hn : n = 4 + body.length)
+    (h1 : (n : Int) ≤ maxLen) (h2 : n < 2 ^ 32) :
+    recvFirst maxLen (be 4 n ++ body) = .pkg (be 4 n ++ body) := by
+  obtain ⟨b0, b1, b2, b3, hb⟩ := be4_shape n
+  have hv := beVal_be4 b0 b1 b2 b3 _ hb h2
+  rw [hb]
+  exact recvFirst_cons maxLen b0 b1 b2 b3 body n hv hn h1
 
 theorem requestPack_shape (p : ReqPacket) :
     requestPack p = be 4 (4 + (encStruct packetEnv reqPacketName p.toVal).length)
       ++ encStruct packetEnv reqPacketName p.toVal := by
   simp [requestPack, putUint32, zeros, cpReqHeader]
+  congr 1; omega
 
 theorem rsp2Byte_shape (p : RspPacket) :
     rsp2Byte p = be 4 (4 + (encStruct packetEnv rspPacketName p.toVal).length)
       ++ encStruct packetEnv rspPacketName p.toVal := by
   simp [rsp2Byte, putUint32, zeros, cpRspHeader]
+  congr 1; omega
 
 theorem drop4_frame (n : Nat) (body : Bytes) : (be 4 n ++ body).drop 4 = body := by
   obtain ⟨b0, b1, b2, b3, hb⟩ := be4_shape n
   rw [hb]; rfl
 
 theorem frame_length (n : Nat) (body : Bytes) : (be 4 n ++ body).length = 4 + body.length := by
-  simp; omega
+  simp only [List.length_append, be_length]
 
 end Tars.CallPath
